@@ -276,6 +276,19 @@ impl FixtureDatabase {
         false
     }
 
+    /// Check whether a file lives in a `site-packages` directory.
+    /// Only the part of the path below the workspace root is considered, so a workspace
+    /// that itself lives under a directory whose name contains "site-packages" is not
+    /// classified as third-party wholesale.
+    pub(crate) fn path_is_in_site_packages(&self, file_path: &Path) -> bool {
+        let workspace = self.workspace_root.lock().unwrap();
+        let relevant = workspace
+            .as_ref()
+            .and_then(|ws| file_path.strip_prefix(ws).ok())
+            .unwrap_or(file_path);
+        relevant.to_string_lossy().contains("site-packages")
+    }
+
     /// Remove all cached data for a file.
     /// Called when a file is closed or deleted to prevent unbounded memory growth.
     pub fn cleanup_file_cache(&self, file_path: &Path) {
